@@ -6,6 +6,8 @@ CONSTANTS
   PipeCap = 2
   BigChunks = 3
   BreakOutAfterPanic = FALSE
+  DrainAbandoned = FALSE
+  RespawnOnEpipe = FALSE
 CHECK_DEADLOCK FALSE
 SPECIFICATION Spec
 VIEW View
